@@ -7,7 +7,7 @@ from .. import core, harness, datadir, model, oracles, layouts, gen
 from ..chain import COINS, COIN_NAMES
 from ..core import viol
 
-RULE = ("chains spread over 1..100 (quick) / 300 (thorough) blk files in layouts with disjoint height spans (one block per file, contiguous "
+RULE = ("chains spread over 1..300 (thorough: up to 3000) blk files in layouts with disjoint height spans (one block per file, contiguous "
         "runs, also stored in arrival instead of height order inside each file), overlapping spans, two files interleaved height by height, a file revisited after a long gap, x ranges starting/stopping "
         "inside a file. (1) trace spec over the H2 census of /proc/self/fd taken after every block: the set of descriptors open on blk*.dat "
         "files must be a subset of the files that still hold a block of a higher height (computed from the full index); (2) black-box: "
@@ -175,7 +175,7 @@ def plan(chk):
     rng = chk.rng("plan")
     specs = []
     n = 0
-    big = 300 if chk.thorough else 100
+    big = 300   # more files than fit in a u8 counter, in both tiers
     kinds = [("one_per_file", big, None), ("one_per_file", 40, None), ("contiguous", 60, 12), ("contiguous", 40, 2), ("interleaved2", 40, 8),
              ("interleaved2", 24, 2), ("round_robin", 30, 5), ("revisit", 40, None), ("single", 30, None),
              ("contiguous-shuffled", 80, 20), ("contiguous-reversed", 60, 12), ("contiguous-shuffled", 30, 3)]
